@@ -1,12 +1,14 @@
 //! C11 — query results obey the algebra of predicates, limits and aggregates.
 //!
 //! (1) OPERATOR level: the real pull operators of grafeo-core (Filter with ExpressionPredicate,
-//!     Limit, Skip, LimitSkip, Distinct, Union, SimpleAggregate, HashAggregate) over a mock child
-//!     that yields generated chunks with arbitrary boundaries and selection vectors; the drained
-//!     rows are compared with the model (GV.Query.Run) and with the specification (oracle).
+//!     Limit, Skip, LimitSkip, Distinct, Union, SimpleAggregate, HashAggregate with count / sum /
+//!     avg / min / max / first / last / collect, Sort) over a mock child that yields generated
+//!     chunks with arbitrary boundaries and selection vectors; the drained rows are compared with
+//!     the model (GV.Query.Run) and with the specification (oracle).
 //! (2) ENGINE level: generated small graphs (and one big table) through
-//!     `GrafeoDB::session().execute / execute_cypher`; the identities of the property are checked
-//!     on the engine's outputs (oracle) and every output is compared with the model.
+//!     `GrafeoDB::session().execute / execute_cypher / execute_gremlin / execute_graphql`; the
+//!     identities of the property are checked on the engine's outputs (oracle) and every output
+//!     is compared with the model.
 use std::collections::HashMap;
 use std::sync::Arc;
 
@@ -1364,6 +1366,8 @@ fn case_agg2(r: &mut Rng, out: &mut Out, forced: Option<(Vec<Chunk>, Vec<AF>, bo
         show: Some(if grouped { format!("show_hash_agg2 [0%nat] {} {} {}", aggs, tysc, coq_chunks(&cs)) } else { format!("show_simple_agg2 {} {} {}", aggs, tysc, coq_chunks(&cs)) }),
         oracle,
         msg: if oracle == Oracle::Fail { format!("returned {} expected {}", show_orows(&got), show_rows(&expected)) } else { String::new() },
+        kcoq: if oracle == Oracle::Fail && grouped { Some(format!("k_second_null [0%nat] {} {} {}", aggs, tysc, coq_chunks(&cs))) } else { None },
+        kid: if oracle == Oracle::Fail && grouped { Some("C11-K11".into()) } else { None },
         nontrivial: cs.len() >= 2 && logical.len() >= 3,
         imp: show_orows(&got),
         tags,
@@ -2171,14 +2175,19 @@ fn case_eng_agg(r: &mut Rng, g: &Graph, out: &mut Out, forced: Option<(AF, usize
     if !in_dom { tags.push("agg2:outside-model-domain".into()); }
     let (kid, kcoq) = if oracle != Oracle::Fail { (None, None) } else if got.is_none() {
         (Some("C11-K10".to_string()), Some(format!("k_sum_overflow {} {}", fc, valsc)))
+    } else if lang == Lang::Cypher && af == AF::Count {
+        (Some("C11-K12".to_string()), Some(format!("k_cypher_count {} {}", fc, valsc)))
+    } else if grouped && matches!(af, AF::Avg | AF::Min | AF::Max) && vals.iter().all(|p| p.1 == V::Null || matches!(p.1, V::Int(_))) {
+        // Int64 / NULL inputs: the only listed way to a wrong answer is the lost second NULL of the typed result vector
+        (Some("C11-K11".to_string()), Some(format!("k_second_null_eng {} {}", fc, valsc)))
     } else {
         (Some("C11-K9".to_string()), Some(format!("k_agg_typed {} {}", fc, valsc)))
     };
     out.emit(&Case {
         kind: "eng_agg".into(),
         input: format!("{} | {} | values {}", lang.name(), q, vals.iter().map(|(k, v)| if grouped { format!("{}:{}", k.show(), v.show()) } else { v.show() }).collect::<Vec<_>>().join(",")),
-        coq: if in_dom { Some(format!("{} {} {} {}", if grouped { "chk_eng_group_agg" } else { "chk_eng_agg" }, fc, valsc, coq_orows(&got))) } else { None },
-        show: Some(format!("show_eng_agg {} {}", fc, valsc)),
+        coq: if in_dom { Some(format!("{} {} {} {} {}", if grouped { "chk_eng_group_agg" } else { "chk_eng_agg" }, lang.coq(), fc, valsc, coq_orows(&got))) } else { None },
+        show: Some(format!("show_eng_agg {} {} {}", lang.coq(), fc, valsc)),
         oracle,
         msg: if oracle == Oracle::Fail { if overflow { "the query panicked: SUM left the i64 range".to_string() } else { format!("returned {} expected {}", show_orows(&got), show_orows(&expected)) } } else { String::new() },
         kcoq,
@@ -2285,7 +2294,14 @@ fn case_eng_lang(r: &mut Rng, g: &Graph, out: &mut Out) {
         &[("gt", ">", "_gt"), ("gte", ">=", "_gte"), ("lt", "<", "_lt"), ("lte", "<=", "_lte"), ("eq", "=", ""), ("neq", "<>", "_ne")]
     };
     let (gop, cop, qop) = *r.pick(ops);
-    let reference = run_query(&g.db, Lang::Cypher, &format!("MATCH (n:{}) WITH n WHERE (n.p{} {} {}) RETURN n.id", g.label, c, cop, lit));
+    // the evaluator's answer: a NOT at the top keeps plan_filter's range-scan path (finding K8) out of the reference
+    let reference = run_query(&g.db, Lang::Cypher, &match cop {
+        ">" => format!("MATCH (n:{}) WHERE (NOT (n.p{} <= {})) RETURN n.id", g.label, c, lit),
+        ">=" => format!("MATCH (n:{}) WHERE (NOT (n.p{} < {})) RETURN n.id", g.label, c, lit),
+        "<" => format!("MATCH (n:{}) WHERE (NOT (n.p{} >= {})) RETURN n.id", g.label, c, lit),
+        "<=" => format!("MATCH (n:{}) WHERE (NOT (n.p{} > {})) RETURN n.id", g.label, c, lit),
+        _ => format!("MATCH (n:{}) WHERE (n.p{} {} {}) RETURN n.id", g.label, c, cop, lit),
+    });
     let Ok(reference) = reference else { return };
     let want = sorted(ints_of(&reference));
     for lang in [Lang::Gremlin, Lang::GraphQl] {
